@@ -472,11 +472,14 @@ def make_cer(rc: Dict[str, str], fc: Dict[str, bool], hints: Dict[str, Optional[
     if packages is not NO_PACKAGE_TABLE and packages and fill_in_place:
         # the other way of building a result: the package table is filled in afterwards, entry by entry
         cer = ContentEvaluationResult(hints=dict(hints), format_constraints=format_constraints, requirement_constraints=requirement_constraints)
-        if cer.packages is None:
-            cer.packages = {}
-        for package_key, package_expression in packages.items():
-            cer.packages[package_key] = package_expression
-        return cer
+        try:
+            if cer.packages is None:
+                cer.packages = {}
+            for package_key, package_expression in packages.items():
+                cer.packages[package_key] = package_expression
+            return cer
+        except (AttributeError, TypeError):
+            pass  # a model that cannot be filled afterwards (frozen / read-only mapping): built in one go below, like everybody has to then
     return ContentEvaluationResult(
         hints=dict(hints),
         format_constraints=format_constraints,
